@@ -3,7 +3,7 @@
 Written from the on-disk format documentation (Documentation/filesystems/ext4, the ext4 wiki disk layout); it never links or
 imports libext2fs.  CRCs come from native/crcref.so whose tables are derived from the polynomials at load time.
 Unsupported features raise Unsupported (cases are counted, never judged)."""
-import struct, ctypes, os, sys, collections, hashlib
+import re, struct, ctypes, os, sys, collections, hashlib
 _crc = ctypes.CDLL(os.path.join(os.path.dirname(os.path.dirname(os.path.abspath(__file__))), 'native', 'crcref.so'))
 _crc.ref_crc32_be.restype = ctypes.c_uint32; _crc.ref_crc32_be.argtypes = [ctypes.c_uint32, ctypes.c_char_p, ctypes.c_size_t]
 def crc32_be(c, b): return _crc.ref_crc32_be(c, bytes(b), len(b))
@@ -431,7 +431,7 @@ class Checker:
                     if b in fixed: F('dup','ino %d xattr block collides with %s'%(ino,fixed[b]))
                     elif b in owners and owners[b][1]!='xattr': F('dup','xattr block %d also claimed by ino %d'%(b,owners[b][0]))
                     else: owners[b]=(ino,'xattr'); used_clusters.add(b//fs.cratio)
-        s.inuse=inuse; s.maps=maps
+        s.inuse=inuse; s.maps=maps; s.fixed=fixed; s.owners=owners; s.special=special
         # xattr blocks
         for b,n in xattr_refs.items():
             blk=fs.rb(b)
@@ -818,3 +818,32 @@ def check_xattr_block(fs, blkno, F):
         if not e['hash']: h = 0; break
         h = ((h << 16) & M32) ^ (h >> 16) ^ e['hash']
     if ents and bh != h: F('xattr', 'xattr block %d block hash %08x expected %08x' % (blkno, bh, h))
+
+
+def metadata_blocks(ck):
+    """after Checker.run(): (set of all metadata blocks, set of blocks owned by files or primary metadata).
+    Metadata = superblock/descriptor copies, bitmaps, inode tables, MMP, extent-tree/indirect blocks, xattr blocks, directory blocks, symlink blocks and the data of the
+    journal / quota / orphan-file / resize inodes (what e2image -r must carry)."""
+    fs=ck.fs; meta=set(); owned=set(); gds=fs.gds()
+    for b,tag in ck.fixed.items():
+        if tag.startswith('sb/gdt g') and tag!='sb/gdt g0': continue     # backups are not "primary metadata" (an image may or may not carry them)
+        m=re.match(r'(bbitmap|ibitmap|itable) g(\d+)$',tag)
+        if m and fs.has_gdcsum:
+            gd=gds[int(m.group(2))]
+            # uninitialised bitmaps / inode tables and the never-used tail of an inode table carry no information (and may hold stale bytes): not required in an image
+            if m.group(1)=='bbitmap' and gd.flags&2: continue
+            if m.group(1) in ('ibitmap','itable') and gd.flags&1: continue
+            if m.group(1)=='itable':
+                used_blocks=((fs.ipg-gd.itable_unused)*fs.isize+fs.bs-1)//fs.bs
+                if b-gd.itable>=used_blocks: continue
+        meta.add(b); owned.add(b)
+    for b,(ino,kind) in ck.owners.items():
+        if kind!='data': meta.add(b)
+        if fs.cratio>1 and kind=='data': owned.update(range(b,b+fs.cratio))
+        else: owned.add(b)
+    for ino,ext in ck.maps.items():
+        I=ck.inuse[ino]
+        if I.fmt==S_IFDIR or I.fmt==S_IFLNK or (ino in ck.special and ino not in (1,2)):
+            for lb,pb,ln,un in ext:
+                if fs.first_data<=pb and pb+ln<=fs.blocks: meta.update(range(pb,pb+ln))
+    return meta, owned
